@@ -23,6 +23,13 @@ pub fn get_message(squitter: &str) -> Option<Vec<u32>> {
     clean_squitter(squitter)
         .filter(|message| matches!(message.len(), 14 | 28))
         .filter(|message| reminder(message) == 0)
+        .filter(|message| is_length_of_format(message))
+}
+
+/// DF 0-15 are 56-bit frames, DF 16-31 are 112-bit frames.
+fn is_length_of_format(message: &[u32]) -> bool {
+    let df = (message[0] << 1) | (message[1] >> 3);
+    (df < 16) == (message.len() == 14)
 }
 
 pub(crate) fn get_hex_message(message: &[u32]) -> String {
